@@ -1,4 +1,5 @@
 import Gedcom.Model.Pages
+import Gedcom.Model.PagesStats
 import Driver.Util
 namespace Driver
 open Gedcom Gedcom.Living Gedcom.Pages
@@ -79,7 +80,7 @@ private def pPerson : P PPerson := do
   let unknownFams ← pList (pList pOpt)
   let sx : Sex := if sex == "m" then .male else if sex == "f" then .female else .unknown
   pure { pub := ⟨living == "1", sx⟩
-         st := ⟨parentFams, spouses, unknownFams⟩
+         st := ⟨parentFams, spouses, unknownFams, []⟩
          priv := ⟨if hasName == "1" then [name] else [], dates, page, cells, surname, []⟩
          pp := ⟨UInt8.ofNat idxL, UInt8.ofNat listL, sortKey, title, nameCard, altCard, events, plevs⟩ }
 
@@ -89,6 +90,20 @@ private def pDoc : P DocA := do
   let others ← pList pPlEv
   let ptrs ← pList pHex
   pure ⟨people, fams, others, ptrs⟩
+
+/-- the extension of the document for `c17stats`: the event tag names of every person, MARR/DIV per
+    family, the SOUR records -/
+private def pDocX : P DocX := do
+  let d ← pDoc
+  let evTags ← pList (pList pHex)
+  let famEv ← pList (do let m ← tok; let v ← tok; pure (m == "1", v == "1"))
+  let sources ← pList (do
+    let ptr ← pHex; let title ← pHex
+    let nodes ← pList (do let t ← pHex; let v ← pHex; pure (t, v))
+    pure (⟨ptr, title, nodes⟩ : SrcA))
+  let people := (d.people.zip (evTags ++ List.replicate d.people.length [])).map
+    (fun (p, t) => { p with st := { p.st with evTags := t } })
+  pure ⟨{ d with people := people }, famEv, sources⟩
 
 private def showAtom : Atom → String
   | .T s => "T" ++ toHex s
@@ -118,6 +133,24 @@ def handlePages (cmd : String) (rest : List String) : Option String :=
         let placesOk := (placeEvents generatedFlags d vis).all (fun e => placeKeyOf d e.2 == e.2.key)
         some (" ".intercalate (files.map fun f => toHex f.1 ++ "=" ++ ",".intercalate (f.2.map showAtom)) ++
           s!" names={if keysOk then "ok" else "individual-keys-differ"},{if placesOk then "ok" else "place-keys-differ"}")
+      | _, _ => some "bad-op"
+    | _ => some "bad-op"
+  | "c17stats" =>
+    -- c17stats <vis> <6 option bits> <doc> <event tags, MARR/DIV, sources> : sources.html, the source
+    -- pages and statistics.html with their skeletons, and the numbers that count people
+    match rest with
+    | v :: o :: more =>
+      let vis : Option Vis := match v with
+        | "show" => some .show | "hide" => some .hide | "placeholder" => some .placeholder | _ => none
+      match vis, pDocX.run more with
+      | some vis, some (x, []) =>
+        let b (i : Nat) : Bool := o.toList.getD i '0' == '1'
+        let opts : Opts := ⟨b 0, b 1, b 2, b 3, b 4, b 5⟩
+        let files := extraSite generatedFlags generatedSFlags x vis opts
+        let c := counts generatedFlags generatedSFlags x.d vis opts
+        let badge := match c.individualsBadge with | some n => toString n | none => "-"
+        some (" ".intercalate (files.map fun f => toHex f.1 ++ "=" ++ ",".intercalate (f.2.map showAtom)) ++
+          s!" counts={badge},{c.statsTotal},{c.statsLiving},{c.statsDead},{c.eventsTotal}")
       | _, _ => some "bad-op"
     | _ => some "bad-op"
   | _ => none
